@@ -241,6 +241,8 @@ C17_MICRO = [
     ("a10.c", "// " + "x" * 75 + "{K}\n/*\n** " + "y" * 75 + "{K}\n*/\nint\tfn(void)\n{\n\treturn (0);\n}\n/* " + "z" * 74 + "{K}\n*/\n"),
     # the same long interior line with trigraphs ALLOWED in the replacement text ({Q}): the known width finding lives here only
     ("a11.c", "/*\n** " + "y" * 75 + "{Q}\n*/\nint\tfn(void)\n{\n\treturn (0);\n}\n"),
+    # two comments (and two strings) of the same length on ONE line, inside an instruction: they may or may not have the same text
+    ("a12.c", "int\tfn(int a)\n{\n\tput(/* {E} */ a, /* {E} */ 1, 4);\n\tput({F}, {F});\n\treturn (a); /* {E} */ /* {E} */\n}\n"),
     ("a6.c", "int\tfn(char c)\n{\n\tchar\t*p;\n\n\tp = (char *){S};\n\tp = {S} + 1;\n\tc = {C} + 1;\n\tc = (char){C};\n\tc = -{C};\n\tfoo({S}, {S});\n\treturn (c == {C} || p[0] == {C});\n}\n"),
 ]
 
@@ -284,7 +286,13 @@ def c17_micro(idx):
     k = 0
     for raw in tmpl.split("\n")[:-1]:
         parts = []
-        for tok in re.split(r"(\{[SCKQ]\})", raw):
+        for tok in re.split(r"(\{[SCKQEF]\})", raw):
+            if tok == "{E}":
+                parts.append(F.Slot("comment", "abc"))      # fixed length: equal texts are possible
+                continue
+            if tok == "{F}":
+                parts.append(F.Slot("str", '"ab"'))
+                continue
             if tok == "{Q}":
                 q = F.Slot("comment", "abc")
                 q.allow_trigraphs = True
@@ -476,6 +484,11 @@ def run_chunk(chunk, ctx):
             o = P.run_text(prog.name, SymStr(its))
             key = outcome_key(o)
             ckey = conc(key)
+            if o.kind == "exc":
+                # an internal exception may be the engine's own (an operation on a proxy the real code never sees): confirm it on
+                # the real code; a non-reproducing one makes the check inconclusive instead of being compared as an 'outcome'
+                col.probe(f"{prop}:exception:{o.detail}", dict(prop=prop, name=prog.name, a=SymStr(its).concretize(ex.model()),
+                                                                b=SymStr(its).concretize(ex.model())))
             if rk not in ref:
                 ref[rk] = (ckey, SymStr(its).concretize(ex.model()))
             elif ckey != ref[rk][0]:
@@ -669,6 +682,8 @@ def replay(case):
     ka, kb = outcome_key(oa), outcome_key(ob)
     if prop in ("C17", "C18"):
         viol = []
+        if ob.kind == "exc":
+            viol.append([f"{prop}:exception:{ob.detail}", "internal exception"])
         if ka != kb:
             feat = "alt-spellings-allowed" if case["name"] == "a11.c" else spelling_feature(case["a"], case["b"])
             viol.append([diff_fp(prop, ka, kb) + ((":" + feat) if prop == "C17" else ""), "diagnostics differ"])
